@@ -4,7 +4,7 @@ CONSTANTS
   MaxZ = 2
   Modes = {"default", "zone"}
   MinHedge = {0, 1, 3}
-  Terminals = {TRUE, FALSE}
+  Preds = {"nil", "never", "class", "all", "nottransient"}
   NoCancels = {TRUE, FALSE}
 SPECIFICATION Spec
 PROPERTIES Termination
